@@ -43,6 +43,11 @@ func H_C04_update() {
 	writeFile(path, content)
 
 	upd := WithConfig(Dir(dir), Filename("f"), Update(true))
+	kind := kindSnapshot
+	if structured {
+		vxrt.YAMLAssume(true)
+		kind = vxrt.Choice("kind", 2) // MatchSnapshot or MatchYAML
+	}
 	newv := make([]string, k)
 	changed := make([]bool, k)
 	for i := 0; i < k; i++ {
@@ -60,7 +65,7 @@ func H_C04_update() {
 	for i := 0; i < k; i++ {
 		t := newT(names[i])
 		stamp := vxrt.FSStamp()
-		upd.MatchSnapshot(t, newv[i])
+		doCall(upd, t, kind, newv[i])
 		t.end()
 		vxrt.Assert(len(t.errors) == 0, "C04:update-run-no-error")
 		if changed[i] {
@@ -84,7 +89,7 @@ func H_C04_update() {
 	stamp := vxrt.FSStamp()
 	for i := 0; i < k; i++ {
 		t := newT(names[i])
-		ro.MatchSnapshot(t, newv[i])
+		doCall(ro, t, kind, newv[i])
 		t.end()
 		vxrt.Assert(len(t.errors) == 0 && len(t.logs) == 0, "C04:read-only-run-passes")
 	}
